@@ -34,7 +34,7 @@ func init() {
 		Run:        runC17,
 		Rule:       "one run = scripts of tokenizer operations (new, next×k, drain, reset, abandon, next-after-error) for 1..4 simulated goroutines over generated valid and structurally broken documents, plus pool policy and schedule, all from the tape; non-trivial = a tokenizer was reused after Reset, or a scope stack went through the pool to another tokenisation, or a context switch happened; distinct = distinct hash of (scripts, documents, schedule trace)",
 		FaultKinds: []string{"abandon-with-open-scopes", "reset-mid-document", "reset-after-error", "invalid-document", "stack-reused-from-pool", "next-after-error", "context-switch-between-next", "pool-policy:lifo", "pool-policy:fifo", "pool-policy:random", "pool-policy:never-reuse", "pool-policy:drop-on-put"},
-		ProbeNames: []string{"tokenisations", "valid-tokenisations-fully-checked", "tokens-checked", "invalid-tokenisations", "empty-container-inside-non-empty", "key-after-nested-object", "depth>=8", "depth>=32", "siblings>=65536", "valid-document-with-invalid-utf8-in-a-string", "pool-cross-task-handoff", "pool-reuse", "strings-with-escapes-checked", "numbers-checked"},
+		ProbeNames: []string{"tokenisations", "valid-tokenisations-fully-checked", "tokens-checked", "invalid-tokenisations", "empty-container-inside-non-empty", "key-after-nested-object", "depth>=8", "depth>=32", "depth>=65", "depth>=257", "siblings>=65536", "valid-document-with-invalid-utf8-in-a-string", "pool-cross-task-handoff", "pool-reuse", "strings-with-escapes-checked", "numbers-checked"},
 		Real:       []string{"json.Tokenizer, stack pool, scalar scanners (json/token.go, json/parse.go) compiled from /repo's working tree with sync redirected to the shim"},
 		Model:      []string{"sync.Pool (simulated: LIFO/FIFO/random/never-reuse/drop, double-put monitor)", "scheduler (token passing, choices from the tape)", "reference: token stream of encoding/json.Decoder.Token plus a ten-line scope stack for Depth/Index/IsKey; json.Compact for the concatenation"},
 		Assumptions: []string{
@@ -229,6 +229,10 @@ func c17GenDoc(t *tape.Tape) []byte {
 		b = g.Value(b, t.Range(0, 300), 0)
 	case 1: // deep nesting
 		d := t.Range(2, 40)
+		if t.Chance(1, 5) {
+			// around the widths a scope stack could be packed into
+			d = []int{31, 32, 33, 63, 64, 65, 66, 127, 128, 129, 255, 256, 257, 513, 1025}[t.Intn(15)] + t.Intn(3)
+		}
 		for i := 0; i < d; i++ {
 			if t.Bool() {
 				b = append(b, '[')
@@ -525,6 +529,12 @@ func runC17(r *core.Run) {
 					}
 					if d.maxDep >= 32 {
 						r.Probe("depth>=32")
+					}
+					if d.maxDep >= 65 {
+						r.Probe("depth>=65")
+					}
+					if d.maxDep >= 257 {
+						r.Probe("depth>=257")
 					}
 					if len(d.model) >= 2*65536 {
 						r.Probe("siblings>=65536")
